@@ -2,7 +2,7 @@
 
 * deterministic memo ids: `hio.core.memo.memoing.uuid` is replaced by a counter-based source (reset per case);
 * fixed ed25519 signers (seeds are constants);
-* guards for calls that may loop for ever (step guard on a property read inside the loop + itimer backstop);
+* guards for calls that may loop for ever (step guard on a property read inside the loop + CPU-time itimer backstop);
 * a reference gram builder written from the format description in memoing.py's module docstring
   (used to craft hostile grams and as an independent view of the wire format);
 * receivers fed through the real `receive(echoic=True)` path (the datagram queue `.echos`), real `serviceAllRx()`;
@@ -68,16 +68,17 @@ class Hang(BaseException):
 
 
 @contextmanager
-def alarm(seconds=4.0):
+def alarm(seconds=5.0):
+    """CPU-time limit (ITIMER_VIRTUAL: only this process's own user time counts, so a loaded machine cannot fake a hang)"""
     def onalarm(sig, frm):
-        raise Hang("itimer")
-    old = signal.signal(signal.SIGALRM, onalarm)
-    signal.setitimer(signal.ITIMER_REAL, seconds)
+        raise Hang("cpu timer")
+    old = signal.signal(signal.SIGVTALRM, onalarm)
+    signal.setitimer(signal.ITIMER_VIRTUAL, seconds)
     try:
         yield
     finally:
-        signal.setitimer(signal.ITIMER_REAL, 0)
-        signal.signal(signal.SIGALRM, old)
+        signal.setitimer(signal.ITIMER_VIRTUAL, 0)
+        signal.signal(signal.SIGVTALRM, old)
 
 
 class GuardedMemoer(Memoer):
